@@ -1271,7 +1271,6 @@ pub fn relator_permutations(fw: &FreeWord) -> (result: BTreeSet<FreeWord>)
             result.insert(__wi);
             result.insert(w);
             proof {
-                assert(result@ == r0.insert(gwi).insert(gw));
                 assert(result@.contains(gw) && result@.contains(gwi));
                 assert forall|k: int| 0 <= k < i + 1 implies has_view(result@, #[trigger] rot(fw@, k)) && has_view(result@, inv_w(rot(fw@, k))) by {
                     if k < i {
